@@ -406,8 +406,15 @@ class EncFile:
                 if m != "0" and st != "absent":
                     ent[b"Length"] = self.kl if st == "bytes" else self.kl * 8
                 cfd[name] = ent
+            if p.get("junk_cf"):
+                # entries of /CF that nothing refers to: a value that is not a dictionary, a crypt filter with an unknown /CFM
+                cfd[b"JunkNotDict"] = 7
+                cfd[b"JunkUnknown"] = {b"Type": N("CryptFilter"), b"CFM": Name(b"Foo")}
             if cfd:
                 e[b"CF"] = cfd
+            if p.get("eff"):
+                # /EFF: an instruction to writers; readers decrypt attachments like every other stream (Table 20)
+                e[b"EFF"] = Name(bytes.fromhex(p["eff"]))
             if not (self.stmf == IDENTITY and p["identity_style"] == "absent"):
                 e[b"StmF"] = Name(self.stmf)
             if not (self.strf == IDENTITY and p["identity_style"] == "absent"):
@@ -416,6 +423,11 @@ class EncFile:
                 e[b"EncryptMetadata"] = False
             elif p.get("em_explicit"):
                 e[b"EncryptMetadata"] = True
+        if V < 4 and p.get("lt4_junk"):
+            # crypt filter entries are meaningful only when /V is 4 or 5 (Table 20): a reader must ignore them
+            e[b"CF"] = {b"StdCF": {b"Type": N("CryptFilter"), b"CFM": Name(b"AESV2"), b"AuthEvent": N("DocOpen")}}
+            e[b"StmF"], e[b"StrF"], e[b"EFF"] = Name(b"StdCF"), Name(IDENTITY), Name(b"StdCF")
+            e[b"EncryptMetadata"] = False
         self.encdict = e
         return e
 
@@ -591,6 +603,8 @@ def apply_crypt(d, form, name):
     old_f, old_p = d.get(b"Filter"), d.get(b"DecodeParms")
     olds = [] if old_f is None else (list(old_f) if isinstance(old_f, list) else [old_f])
     oldp = [None] * len(olds) if old_p is None else (list(old_p) if isinstance(old_p, list) else [old_p])
+    if form == "arr1-dict" and olds:
+        form = "arr"
     if form in ("dict", "notype", "noname", "noparms") and olds:
         form = {"dict": "arr", "notype": "notype-arr", "noname": "noname-arr", "noparms": "noparms-arr"}[form]
     if form == "dict":
@@ -601,6 +615,9 @@ def apply_crypt(d, form, name):
         d[b"Filter"], d[b"DecodeParms"] = Name(CRYPT), {b"Type": Name(CFDP)}
     elif form == "noparms":
         d[b"Filter"] = Name(CRYPT)
+    elif form == "arr1-dict":
+        # a one-element /Filter array whose /DecodeParms is the filter's parameter dictionary itself (7.4.1, Table 5)
+        d[b"Filter"], d[b"DecodeParms"] = [Name(CRYPT)], full
     elif form == "arr":
         d[b"Filter"], d[b"DecodeParms"] = [Name(CRYPT)] + olds, [full] + oldp
     elif form == "notype-arr":
